@@ -316,7 +316,7 @@ theorem cancel_truncates_analyze (g : Game P M) (cfg : Cfg) {o : Oracle M} (hm :
       ∃ st0 s'', st = { st0 with canceled := true } ∧
         analyze g (cfg.withDepth st.depth) o.never p s = .ok ((ms, v, st0), s'')) := by
   unfold analyze at h ⊢
-  cases hg : ttGet { s with loads := 0, evals := 0, sorts := 0, rnds := 0 } (g.hash p) with
+  cases hg : ttGet { s with loads := 0, evals := 0, sorts := 0, rnds := 0, wlog := [] } (g.hash p) with
   | error e => rw [hg] at h; cases h
   | ok te =>
     rw [hg] at h
@@ -352,16 +352,16 @@ theorem analyze_hasTable (g : Game P M) (cfg : Cfg) {o : Oracle M} (hm : o.Monot
     (r : List M × Int × Stats) (s' : Eng M) (h : analyze g cfg o p s = .ok (r, s')) :
     s'.hasTable = s.hasTable := by
   unfold analyze at h
-  cases hg : ttGet { s with loads := 0, evals := 0, sorts := 0, rnds := 0 } (g.hash p) with
+  cases hg : ttGet { s with loads := 0, evals := 0, sorts := 0, rnds := 0, wlog := [] } (g.hash p) with
   | error e => rw [hg] at h; cases h
   | ok te =>
     rw [hg] at h
-    have h' : analyzeFrom g cfg o p (seedOf te) { s with loads := 0, evals := 0, sorts := 0, rnds := 0 } =
+    have h' : analyzeFrom g cfg o p (seedOf te) { s with loads := 0, evals := 0, sorts := 0, rnds := 0, wlog := [] } =
         .ok (r, s') := h
     unfold analyzeFrom at h'
     cases hl : analyzeLoop g cfg o p (seedOf te).1 (cfg.depth - (seedOf te).1).toNat 1
         ⟨(seedOf te).2.1, (seedOf te).2.2, { depth := (seedOf te).1 }, 0, 0⟩
-        { s with loads := 0, evals := 0, sorts := 0, rnds := 0 } with
+        { s with loads := 0, evals := 0, sorts := 0, rnds := 0, wlog := [] } with
     | error e => rw [hl] at h'; cases h'
     | ok x =>
       rw [hl] at h'
